@@ -605,7 +605,7 @@ PROPS = {
         level="proof",
         claim="Kani/CBMC proof of step equivalence restricted to interrupt/NMI/HALT/prefix sequencing: acceptance only with IFF1 set and no EI/DI/prefix shadow (the shadow is part of the compared state, so 'never directly after EI/DI' and 'never inside a prefix chain' hold by induction), IFF1/IFF2 effects, HALT release with return address behind the HALT, vectors 0x0038 / word at I*256+bus byte / 0x0066, halted CPU re-executing HALT advancing only R, RETN/RETI copying IFF2 (ED group), prefix-chain steps (DD/FD/ED after DD/FD) setting the shadow.",
         note="Complete over register state; the acceptance-deciding control inputs (shadow flag, line levels, IFF1, IM2-or-not) are enumerated concretely per harness so all combinations are covered by the six int_* harnesses + the instruction groups (lines low). First handler instruction fixed to NOP (instruction space is C01's).",
-        kani=[k_z80("K-z80::int", Z80_INT + ["halt_enter", "halt_stay", "pend_dd", "pend_fd", "pend_ed"]),
+        kani=[k_z80("K-z80::int", Z80_INT + ["halt_enter", "halt_stay", "c02_ei", "c02_di", "c02_retn", "c02_reti", "pend_dd", "pend_fd", "pend_ed"]),
               dict(name="K-z80::spec-lemmas", package="rustzx-z80", harnesses=Z80_SPEC, flags=["--solver", "cadical"], jobs=4,
                    functions={"*": ["(specification) kani/z80/reference.rs ref_step: the C02 rules as lemmas over the reference alone"]},
                    assumptions=["lemmas over the reference semantics only: they cross-check the trusted specification against the statement, no real code involved"],
